@@ -17,6 +17,24 @@ def canon_sample(kind, s):
         return repr(s)
 
 
+def struct(x, seen=None):
+    """structural snapshot of an object graph whose classes define no __eq__ (the grammar objects)"""
+    seen = seen if seen is not None else set()
+    if isinstance(x, (str, int, float, bool, type(None))):
+        return x
+    if isinstance(x, (list, tuple)):
+        return [struct(y, seen) for y in x]
+    if isinstance(x, dict):
+        return sorted((repr(k), struct(v, seen)) for k, v in x.items())
+    if id(x) in seen:
+        return "<cycle>"
+    seen = seen | {id(x)}
+    d = getattr(x, "__dict__", None)
+    if d is None:
+        return repr(x)
+    return [type(x).__name__, sorted((k, struct(v, seen)) for k, v in d.items())]
+
+
 def process(action, observe=True, partial=None):
     """action = [kind, payload]; returns (observation, input_unchanged)"""
     from fences import parse_regex, parse_grammar, parse_json_schema, parse_xml_schema
@@ -34,6 +52,7 @@ def process(action, observe=True, partial=None):
             g = parse_regex(payload)
         elif kind == "grammar":
             gr = GM.to_fences([(nm, tup(r)) for nm, r in payload["rules"]])
+            gr_before = struct(gr)
             g = parse_grammar(gr, "n%d" % payload["start"])
         else:
             el = ET.fromstring(payload)
@@ -53,6 +72,8 @@ def process(action, observe=True, partial=None):
         obs.append("RecursionError")
     except Exception as e:  # noqa
         obs.append("exception:" + type(e).__name__)
+    if kind == "grammar" and 'gr_before' in dir() and struct(gr) != gr_before:
+        return obs, False                               # the caller's grammar objects were modified
     unchanged = (payload == before) if kind != "xml" else (ET.tostring(el, encoding="unicode") == text_before if 'el' in dir() else True)
     return obs, unchanged
 
